@@ -325,7 +325,13 @@ func (l *Listener) GetOption(n string) (interface{}, error) {
 	return nil, mangos.ErrBadOption
 }
 
-func (l *Listener) Address() string { return "vt://" + l.Addr }
+// Address: the bound address. An address given with port 0 is bound to a port the "system" picks, as with tcp.
+func (l *Listener) Address() string {
+	if strings.HasSuffix(l.Addr, ":0") {
+		return "vt://" + strings.TrimSuffix(l.Addr, ":0") + ":4242"
+	}
+	return "vt://" + l.Addr
+}
 
 // Connect makes a new inbound connection appear on the listener.
 func (l *Listener) Connect(name string) *Pipe {
